@@ -11,7 +11,7 @@ import subprocess
 import sys
 
 BOUNDS = {
-    "sets": "every set(...) / set display / set comprehension in pytestarch.* iterates in a symbolic permutation when it holds 2-3 elements (larger sets: insertion order, outside the bound)",
+    "sets": "every set(...) / set display / set comprehension / set algebra on dict views (d.keys() & e.keys()) in pytestarch.* iterates in a symbolic permutation when it holds 2-3 elements (larger sets: insertion order, outside the bound)",
     "universes": "4-module tree p, p.a, p.b, p.c (2 subjects x 1 object, 1 x 2); 3-module tree (sub-module subjects); four root modules a, b, c, d for 2 subjects x 2 objects (thorough)",
 }
 ASSUMPTIONS = [
@@ -31,8 +31,11 @@ def instances(tier: str) -> list[dict]:
 
     out = []
 
-    def add(nodes, desc, label):
-        out.append({"part": "ndset", "nodes": nodes, "rule": list(desc), "label": "ndset " + label, "cap": CAPS[tier]})
+    def add(nodes, desc, label, window=None):
+        inst = {"part": "ndset", "nodes": nodes, "rule": list(desc), "label": "ndset " + label, "cap": CAPS[tier]}
+        if window:
+            inst.update({"window": window, "background": []})
+        out.append(inst)
 
     shapes = SHAPES if tier == "thorough" else SHAPES[::2] + SHAPES[1::6]
     for verb, direction, exc in shapes:
@@ -63,8 +66,13 @@ def instances(tier: str) -> list[dict]:
     for verb, direction, exc in (SHAPES if tier == "thorough" else SHAPES[::4]):
         ls = LayerSpec(layers, verb, "access" if direction == "import" else "accessed", exc, "L0", ("L1",))
         add(N4, ("layer", ls.as_json()), ls.label())
+    # (a diagram generates a dozen rules; the symbolic relation is a window of the four imports the drawn arrows and
+    # one undrawn pair speak about, every other import absent)
+    dwin = [["p.a", "p.c"], ["p.b", "p.c"], ["p.c", "p.a"], ["p.a", "p.b"]]
+    add(N4, ("diagram-alias", False), "DiagramRule should, arrow sources written by alias", window=dwin)
     if tier == "thorough":
         add(N4, ("diagram", True), "DiagramRule should_only")
+        add(N4, ("diagram-alias", True), "DiagramRule should_only, arrow sources written by alias", window=dwin + [["p.c", "p.b"], ["p.b", "p.a"]])
     return out
 
 
